@@ -10,8 +10,9 @@ META = dict(
          "in every state; behaviours are replayed on a full-stack node where, after every step, pool membership must equal "
          "the spec's and the real fee list, size accounting, conflict slots and proposal budget (verif snapshot accessor) "
          "must be exactly the image of the transactions held.",
-    note="Transfers only (seven colliding templates): the producer/CR/proposal conflict slots are checked to stay empty, not "
-         "exercised with their own transaction kinds; the pool reacts to chain notifications through a harness copy of "
+    note="Seven colliding transfer templates and four producer registrations colliding on owner key, node key and nickname "
+         "(real RegisterProducer transactions with 5000 ELA deposits funded from the genesis coinbase; the DPoS state processes "
+         "them from the first block on); CR / proposal slots are checked to stay empty, not exercised; the pool reacts to chain notifications through a harness copy of "
          "netsync/manager.go's handler (the sync manager needs a P2P server); pool size limit lowered through the verif knob.",
     technique="TLA+ mempool-over-block-tree model checked by TLC + behaviour replay on a full-stack node with internal-index "
               "snapshot comparison",
@@ -25,6 +26,7 @@ CONSTANTS
   MaxBad = %(bad)d
   MaxDeliver = %(deliver)d
   FixFailedReorg = %(fix)s
+  WithProducers = %(prod)s
   MaxPool = %(maxpool)d
   MaxSubmit = %(submit)d
 VIEW mview
@@ -39,7 +41,8 @@ def cfg(txs, blocks, tpb, bad, deliver, submit, maxpool, inv="", extra=""):
     fix = bool(os.environ.get("VERIF_ASSUME_REORG_FIX")) or not any(k.get("key") == "C12:failed-reorg-strands-node" and k.get("status", "open") == "open"
                   for k in vf.load_known())
     return CFG % dict(txs=", ".join('"%s"' % t for t in txs), blocks=blocks, tpb=tpb, bad=bad, deliver=deliver,
-                      submit=submit, maxpool=maxpool, fix="TRUE" if fix else "FALSE", inv=inv, extra=extra)
+                      submit=submit, maxpool=maxpool, fix="TRUE" if fix else "FALSE", inv=inv, extra=extra,
+                      prod="TRUE" if any(t.startswith("R") for t in txs) else "FALSE")
 
 
 def why(b):
@@ -68,15 +71,27 @@ def run(chk):
         st["label"] = "edges MaxPool=%d" % maxpool
         chk.cov.setdefault("extraction", []).append(st)
         runs.append((maxpool, behs))
+    # 2b. unique resources: producer registrations colliding on owner key, node key and nickname
+    prod = dict(txs=["R1", "R2", "R3", "R4", "T1"], blocks=2, tpb=2, bad=0, deliver=3 if thorough else 2, submit=3, maxpool=100000)
+    r = vf.tlc("Chain", "Mempool", "mcp.cfg", cfg_text=cfg(inv=INV, **dict(prod, deliver=3)), workers=16, timeout=1700)
+    vf.tlc_ok(r, "Mempool exhaustive (producers)")
+    chk.add_tlc(r, "exhaustive Mempool.tla with producer registrations: %s" % json.dumps(prod))
+    r = vf.tlc("Chain", "Mempool", "xp.cfg", cfg_text=cfg(extra="ACTION_CONSTRAINT MEmit", **prod), workers=1, timeout=1700)
+    vf.tlc_ok(r, "Mempool extraction (producers)")
+    chk.add_tlc(r, "edge extraction, producer registrations")
+    behs, st = vf.behaviours(r, limit=4000 if thorough else 300, rng=rng, per_class=max(20, (4000 if thorough else 300) // 12), strat_key=why)
+    st["label"] = "edges, producer registrations"
+    chk.cov.setdefault("extraction", []).append(st)
+    runs.append((100001, behs))
     # 3. simulation: deeper, all templates, reorganisations with pool re-insertion
-    sim = dict(txs=["T1", "T2", "T3", "T4", "T5", "T6", "T7"], blocks=5, tpb=2, bad=1, deliver=6, submit=6, maxpool=700)
+    sim = dict(txs=["T1", "T2", "T3", "T4", "T5", "T6", "T7", "R1", "R2", "R3", "R4"], blocks=5, tpb=2, bad=1, deliver=6, submit=6, maxpool=1200)
     r = vf.tlc("Chain", "Mempool", "sim.cfg", cfg_text=cfg(extra="ACTION_CONSTRAINT MEmitLast", **sim), workers=1,
                timeout=1700, simulate="num=%d" % (4000 if thorough else 300), depth=20, seed_arg=vf.seed())
     vf.tlc_ok(r, "Mempool simulation")
     behs, st = vf.behaviours(r, strat_key=why)
     st["label"] = "simulate " + json.dumps(sim)
     chk.cov.setdefault("extraction", []).append(st)
-    runs.append((700, behs))
+    runs.append((1200, behs))
     allrecs = []
     for maxpool, behs in runs:
         path = os.path.join(vf.scratch(), "mbeh-%d.jsonl" % maxpool)
@@ -91,7 +106,7 @@ def run(chk):
     vf.write_json_lines(p, [bad])
     recs, _ = vf.run_driver(binary, ["mempool", p, "0", "1", "100000"], env={"TMPDIR": "/dev/shm"})
     chk.selftest("replay: expected pool membership corrupted", any(x.get("kind") == "violation" for x in recs))
-    chk.assumptions += ["only TransferAsset transactions; other conflict slots must stay empty",
+    chk.assumptions += ["TransferAsset and RegisterProducer transactions; CR and proposal conflict slots must stay empty",
                         "harness copy of netsync/manager.go handleBlockchainEvents drives the pool",
                         "template sizes in Mempool.tla TxSize are checked against the real serialisation on every run"]
     return chk.finish(exhaustive=False)
